@@ -457,6 +457,8 @@ class Evaluator(object):
                 return
             setattr(obj, target.attr, val)
         elif isinstance(target, ast.Tuple):
+            if isinstance(val, Obj):
+                val = self.iterate(val, target)
             vals = list(val)
             if len(vals) != len(target.elts):
                 self.err(target, 'unpack mismatch')
@@ -771,6 +773,10 @@ class Evaluator(object):
             return a // b
         if isinstance(op, ast.Div):
             return a / b
+        if isinstance(op, ast.Pow):
+            if not isinstance(b, (int, float)) or abs(b) > 4096:
+                self.err(node, 'exponent')
+            return a ** b
         self.err(node, 'unsupported binary operator')
 
     def x_BinOp(self, e, env):
